@@ -54,7 +54,8 @@ def generate(seed: int, tier: str, idx: int) -> dict:
         sc["output"].pop("pvars", None)
         sc["output"].pop("release_time_pvar", None)
     if s.chance(0.25):
-        sc["output"]["filename"] = s.pick(["res_07.nc", "a_b_0098.nc", "run42.nc", "x_1.nc"])
+        sc["output"]["filename"] = s.pick(["res_07.nc", "a_b_0098.nc", "run42.nc", "x_1.nc", "north-sea_004.nc",
+                                           "run.v2_08.nc", "2015-01_000.nc", "fjord-a.nc"])
     return sc
 
 
